@@ -535,8 +535,8 @@ Proof. intros n. apply bytes_of_uint_digits. Qed.
 
 Lemma render_Z_inj : forall a b, render_Z a = render_Z b -> a = b.
 Proof.
-  assert (Hm : forall p x, render_N (Npos p) = 45%N :: x -> False).
-  { intros p x H. pose proof (render_N_digits (Npos p)) as D. rewrite H in D. inversion D as [|? ? Hd _]. unfold is_digit in Hd. lia. }
+  assert (Hm : forall n x, render_N n = 45%N :: x -> False).
+  { intros p x H. pose proof (render_N_digits p) as D. rewrite H in D. inversion D as [|? ? Hd _]. unfold is_digit in Hd. lia. }
   intros [|p|p] [|q|q]; unfold render_Z; intros H; try reflexivity.
   - apply render_N_inj in H. discriminate.
   - exfalso. exact (Hm _ _ H).
